@@ -283,21 +283,29 @@ func (h *harness) exhaustive() {
 	ve := []string{"val", "err"}
 	v := []string{"val"}
 	reqs := []fixedReq{
-		{shape: "{o:{n!:i}}", leaf: vle, obj: vle, maxInv: 4},                    // F-02a shape
-		{shape: "{a:i b:i c:i}", leaf: vle, obj: v, maxInv: 4},                   // F-02b shape
-		{shape: "{a!:i b:i c:i}", leaf: vle, obj: v, maxInv: 4},                  // root non-null failing beside caught errors
-		{shape: "{o:{a!:i b:i} c:i}", leaf: vle, obj: vle, maxInv: 4},            // propagation into a nullable object
-		{shape: "{o!:{a!:i b:i}}", leaf: vle, obj: ve, maxInv: 4},                // propagation to the root
-		{shape: "{l:[{x!:i}!]}", leaf: ve, obj: v, listLen: 2, maxInv: 4},        // Join early exit on either item
-		{shape: "{l:[{x!:i}] c:i}", leaf: ve, obj: v, listLen: 2, maxInv: 4},     // per-item catch
-		{shape: "{l:[{x:i y!:i}]}", leaf: ve, obj: v, listLen: 1, maxInv: 4},     //
-		{shape: "{o:{p:{q!:i} r:i}}", leaf: vle, obj: v, maxInv: 4},              // nested objects
-		{shape: "{o:{t# a:i} b!:i}", leaf: vle, obj: v, maxInv: 4},               // __typename slot beside deferred slots
+		{shape: "{o:{n!:i}}", leaf: vle, obj: vle, maxInv: 4},                // F-02a shape
+		{shape: "{a:i b:i c:i}", leaf: vle, obj: v, maxInv: 4},               // F-02b shape
+		{shape: "{a!:i b:i c:i}", leaf: vle, obj: v, maxInv: 4},              // root non-null failing beside caught errors
+		{shape: "{o:{a!:i b:i} c:i}", leaf: vle, obj: vle, maxInv: 4},        // propagation into a nullable object
+		{shape: "{o!:{a!:i b:i}}", leaf: vle, obj: ve, maxInv: 4},            // propagation to the root
+		{shape: "{l:[{x!:i}!]}", leaf: ve, obj: v, listLen: 2, maxInv: 4},    // Join early exit on either item
+		{shape: "{l:[{x!:i}] c:i}", leaf: ve, obj: v, listLen: 2, maxInv: 4}, // per-item catch
+		{shape: "{l:[{x:i y!:i}]}", leaf: ve, obj: v, listLen: 1, maxInv: 4}, //
+		{shape: "{o:{p:{q!:i} r:i}}", leaf: vle, obj: v, maxInv: 4},          // nested objects
+		{shape: "{o:{t# a:i} b!:i}", leaf: vle, obj: v, maxInv: 4},           // __typename slot beside deferred slots
 		{shape: "{m:[[i!]] a:i}", leaf: []string{"val", "null"}, obj: v, listLen: 2, listAlt: true, maxInv: 4},
 		{shape: "{a:i b!:[i]}", leaf: []string{"val", "bad"}, obj: v, listLen: 1, listAlt: true, maxInv: 4},
 		{shape: "{a:{x:i} b:{y!:i}}", mutation: true, leaf: ve, obj: vle, maxInv: 4}, // serial root fields
 		{shape: "{a:i b:i}", mutation: true, leaf: vle, obj: v, maxInv: 4},
 	}
+	reqs = append(reqs,
+		fixedReq{shape: "{a:i b:i c:i d:i}", leaf: ve, obj: v, maxInv: 4},                     // four siblings: 75 schedules when all are promises
+		fixedReq{shape: "{a!:i b:i c:i d:i}", leaf: []string{"err"}, obj: v, maxInv: 4},       //
+		fixedReq{shape: "{o:{a!:i b:i} p:{c:i}}", leaf: ve, obj: ve, maxInv: 5},               // two objects side by side, promised themselves
+		fixedReq{shape: "{l:[{x!:i y:i}] c:i}", leaf: ve, obj: v, listLen: 1, maxInv: 5},      // list items with two promised fields each
+		fixedReq{shape: "{o:{p:{q!:i r:i}} s:i}", leaf: ve, obj: ve, maxInv: 5},               // promise chains three deep
+		fixedReq{shape: "{a:{x:i y:i} b:{z:i}}", mutation: true, leaf: ve, obj: v, maxInv: 5}, // serial root with nested promises
+	)
 	modes := []string{"sync", "promise"}
 	if run.Thorough() {
 		modes = []string{"sync", "promise", "pre"}
@@ -357,7 +365,7 @@ func (h *harness) exhaustive() {
 
 func (h *harness) random() {
 	run := h.run
-	n := run.Scale(2500, 60000)
+	n := run.Scale(20000, 250000)
 	var pending []*engine.Case
 	for i := 0; i < n; i++ {
 		r := run.Rand.Fork()
